@@ -8,6 +8,7 @@
 package c03
 
 import (
+	"encoding/json"
 	"fmt"
 	"os"
 	"sort"
@@ -32,7 +33,7 @@ const (
 	quickCases    = 800
 	thoroughCases = 40000
 	// sessionEndWatchdog bounds the wait for the server to notice a hard close.
-	sessionEndWatchdog = 40 * time.Second
+	sessionEndWatchdog = 20 * time.Second
 )
 
 // ---- server log capture (witness material only) ----
@@ -379,11 +380,17 @@ func runCase(t *testing.T, r *rep.Reporter, c *rep.Case, i int) {
 	serverLog.reset()
 	rg, err := buildRig(sc, strconv.Itoa(i))
 	if err != nil {
+		if strings.Contains(err.Error(), "address already in use") {
+			c.Inconclusive("environment: no free loopback port: " + err.Error())
+			return
+		}
 		t.Fatalf("case %d: %v", i, err)
 	}
 	cl, err := dialClient(rg.addr)
 	if err != nil {
-		t.Fatalf("case %d: dial: %v", i, err)
+		// Close would hang on an endpoint that never served a connection; leave it.
+		c.Inconclusive("environment: cannot connect to the endpoint: " + err.Error())
+		return
 	}
 	eng := newEngine(sc, cl)
 	greeting := cl.readReply()
@@ -463,6 +470,15 @@ func runCase(t *testing.T, r *rep.Reporter, c *rep.Case, i int) {
 	judge(r, c, sc, rg, eng, mark, ended, witness)
 
 	rg.endp.Close()
+
+	if dir := os.Getenv("VERIF_C03_DUMP"); dir != "" {
+		for _, k := range strings.Split(os.Getenv("VERIF_C03_DUMP_KEYS"), ",") {
+			if k != "" && eng.counts[k] > 0 {
+				b, _ := json.MarshalIndent(map[string]any{"signature": "dump/" + k, "what": k, "case_id": c.ID, "seed": r.Seed(), "witness": witness(nil)}, "", " ")
+				os.WriteFile(fmt.Sprintf("%s/%s-%d.json", dir, k, i), b, 0o666)
+			}
+		}
+	}
 
 	// ---- evidence ----
 	for k, v := range eng.counts {
@@ -546,8 +562,11 @@ func leakSignature(sc *scenario, eng *engine, leaked []string) string {
 	sort.Strings(sp)
 	nested := ""
 	for _, tx := range eng.txs {
-		if tx.Nested {
-			nested = "/nested-mail"
+		if tx.Nested && !strings.Contains(nested, "nested-mail") {
+			nested += "/nested-mail"
+		}
+		if tx.Term == "ehlo" && !strings.Contains(nested, "repeated-greeting") {
+			nested += "/repeated-greeting-in-transaction"
 		}
 	}
 	mode := "immediate"
